@@ -617,7 +617,7 @@ fn apply_caught<S: Sut>(s: &mut S, op: usize) -> Result<Option<bool>, String> {
 /// Lockstep continuation: `a` (cleared) and `b` (fresh) receive identical ops and RNG picks.
 fn lockstep<S: Sut>(a: &S, b: &S, depth: usize, path: &mut Vec<String>, st: &mut Stats, pre: &[String]) -> bool {
     st.lockstep_steps += 1;
-    let (oa, ob) = (a.obs(), b.obs());
+    let (oa, ob) = mccore::panics::watch(|| (a.obs(), b.obs()));
     if oa != ob {
         let sig = format!("{} clear() != fresh", a.name().split(' ').next().unwrap());
         if !st.viols.iter().any(|v| v.0 == sig) {
